@@ -202,3 +202,30 @@ Definition memo_mismatches algn names memoised maxsize kf (cs : list memo_case) 
 
 Definition memo_violations (cs : list memo_case) : list Z :=
   indices_where (fun c => negb (obs_list_agree (fresh_run spec_fit_of [] (m_hist c)) (m_obs c))) cs 0.
+
+(* ---------------------------------------------------------------- the two loading models' call sites *)
+
+(* photon_collection.load_image and charge_generation.load_charge call load_cropped_and_aligned_image with arguments
+   built from the detector's geometry and their own parameters, scale the result and add it to a bucket.  What each
+   passes where is read from the source (Gen_C20.src_photon_call / src_charge_call). *)
+Inductive geo_src := GRow | GCol.                       (* detector.geometry.row / .col *)
+
+Record model_call := {
+  mc_shape : geo_src * geo_src;        (* the `shape` argument *)
+  mc_py : nat; mc_px : nat;            (* which component of the model's `position` goes to position_y / position_x *)
+  mc_file : bool;                      (* `filename` is the model's file parameter *)
+  mc_align : bool;                     (* `align` is the model's align parameter *)
+  mc_allow : bool;                     (* allow_smaller_array (default True when not passed) *)
+  mc_factor : Z * Z * Z;               (* exponents of time_step, time_scale, multiplier in the scaling factor *)
+  mc_adds : bool                       (* the scaled array is ADDED to the bucket (+= / add_charge_array) *)
+}.
+
+Definition geo_pick (g : geo_src) (rows cols : Z) : Z := match g with GRow => rows | GCol => cols end.
+Definition pos_pick (k : nat) (pos : Z * Z) : Z := match k with O => fst pos | _ => snd pos end.
+
+(* the request a model makes for a detector of rows x cols, its file, position and align parameters *)
+Definition model_request (mc : model_call) (rows cols : Z) (file : string) (pos : Z * Z) (align : option string)
+  : request :=
+  {| q_shape := (geo_pick (fst (mc_shape mc)) rows cols, geo_pick (snd (mc_shape mc)) rows cols);
+     q_file := file; q_px := pos_pick (mc_px mc) pos; q_py := pos_pick (mc_py mc) pos;
+     q_align := align; q_allow := mc_allow mc |}.
